@@ -10,6 +10,7 @@ import gzip
 import hashlib
 import json
 import os
+import time
 import shutil
 import tempfile
 import zlib
@@ -325,6 +326,12 @@ class C02:
                     f.write(blob[:cutp])
                 out["counters"]["fault.crash_during_repair_stale_partial"] = out["counters"].get("fault.crash_during_repair_stale_partial", 0) + 1
                 where = where + "+stale_partial"
+        if torn and depth == 0 and n % 3 == 1:
+            # double fault, the real way: a resume attempt is KILLED (os._exit in a forked child, so nothing buffered is flushed and no
+            # finally block runs) at a chosen C call after the first call inside Experiment._restore that changes the disk.  Whatever state of
+            # <file> / <file>.partial that leaves is what the resume below starts from; the records that were complete before must survive
+            if self._kill_inside_repair(spec, path, n, cfg, seed, out):
+                where = where + "+killed_in_repair"
         if depth == 0 and not is_gz and n % 4 == 1:
             # fault: the first attempt to resume cannot READ the log (EIO / ESTALE / a permission problem while opening it).  Whatever that
             # attempt does - it may well raise - the records that are in the file must still be there afterwards
@@ -454,6 +461,104 @@ class C02:
                 w2 = self._where(data, m, is_gz)
                 self._check_resume(cfg, spec, p2, data[:m], m, w2 + "(2nd)", is_gz, t_full, ids, full_log_text, seed, False, add, out, depth + 1)
                 os.remove(p2)
+
+    MUTATING_C_CALLS = frozenset(["unlink", "replace", "rename", "remove", "write", "writelines", "truncate", "sendfile", "copy_file_range",
+                                  "_fastcopy_sendfile", "link", "symlink", "rmdir", "ftruncate"])
+
+    def _kill_inside_repair(self, spec, path, n, cfg, seed, out):
+        """Fork; the child resumes from ``path`` in-process and is killed (os._exit) right before its k-th C call made while
+        Experiment._restore is running.  A dry run first counts those calls (T) and finds the first one that can change the disk (F);
+        k is drawn from F..T by a PRNG seeded from the crash offset.  Returns True when a kill after F was delivered."""
+        import random
+        import sys as _sys
+        import select
+
+        def child(kill_at, wfd):
+            try:
+                from coba.experiments.core import Experiment
+                orig = Experiment._restore
+                muts = self.MUTATING_C_CALLS
+
+                def wrapped(self_, *a, **k):
+                    cnt = [0, 0]
+
+                    def prof(frame, event, arg):
+                        if event == "c_call":
+                            cnt[0] += 1
+                            if not cnt[1] and getattr(arg, "__name__", "") in muts:
+                                cnt[1] = cnt[0]
+                            if cnt[0] == kill_at:
+                                os._exit(0)
+                    _sys.setprofile(prof)
+                    try:
+                        return orig(self_, *a, **k)
+                    finally:
+                        _sys.setprofile(None)
+                        if wfd is not None:
+                            os.write(wfd, f"{cnt[0]} {cnt[1]}".encode())
+                        os._exit(0)
+                Experiment._restore = wrapped
+                self.resume(spec, path, [1, 0, 0], seed, cfg["knobs"], False)
+            except BaseException:
+                pass
+            finally:
+                os._exit(0)
+
+        def forked(kill_at, want_counts):
+            rfd, wfd = os.pipe() if want_counts else (None, None)
+            _sys.stdout.flush(); _sys.stderr.flush()
+            pid = os.fork()
+            if pid == 0:
+                if rfd is not None:
+                    os.close(rfd)
+                child(kill_at, wfd)
+            if wfd is not None:
+                os.close(wfd)
+            data = b""
+            t_end = time.time() + 60
+            while True:
+                done, _ = os.waitpid(pid, os.WNOHANG)
+                if done:
+                    break
+                if time.time() > t_end:
+                    os.kill(pid, 9); os.waitpid(pid, 0)
+                    out["counters"]["harness.kill_child_timeout"] = out["counters"].get("harness.kill_child_timeout", 0) + 1
+                    break
+                if rfd is not None and select.select([rfd], [], [], 0.005)[0]:
+                    data += os.read(rfd, 64)
+                elif rfd is None:
+                    time.sleep(0.002)
+            if rfd is not None:
+                while select.select([rfd], [], [], 0)[0]:
+                    b = os.read(rfd, 64)
+                    if not b:
+                        break
+                    data += b
+                os.close(rfd)
+            return data
+
+        # the dry run works on a copy so that the real file is still torn afterwards
+        probe = path + ".probe" + (".gz" if path.endswith(".gz") else "")
+        shutil.copyfile(path, probe)
+        save_path = path
+        try:
+            path = probe
+            data = forked(-1, True)
+        finally:
+            path = save_path
+            for f in (probe, probe + ".partial"):
+                if os.path.exists(f):
+                    os.remove(f)
+        try:
+            T, F = map(int, data.split())
+        except Exception:
+            return False
+        if not F or F > T:
+            return False          # this resume does not touch the disk inside _restore
+        k = random.Random(n * 104729 + cfg["offset_seed"]).randrange(F + 1, T + 2)     # killed before call k: F .. T have happened
+        forked(k, False)
+        out["counters"]["fault.resume_killed_inside_repair"] = out["counters"].get("fault.resume_killed_inside_repair", 0) + 1
+        return True
 
     def extra_coverage(self, tier, agg):
         return {"exhaustive": False,
